@@ -214,6 +214,101 @@ def _experimenter_factory(case):
   return f
 
 
+# designers that can be hosted by PartiallySerializableDesignerPolicy (they implement
+# dump / load); RandomDesigner does not
+PARTIALLY_SERIALIZABLE_KINDS = ['qr', 'sgrid', 'eagle', 'nsga2', 'cmaes']
+# designers whose whole stream state (seed included) is persisted by dump(): a designer
+# rebuilt and restored at every request continues the very stream of one kept in RAM
+# (NSGA-II / CMA-ES document that their RNG is not persisted)
+FULLY_PERSISTED_KINDS = ['qr', 'sgrid']
+
+
+def deterministic_experimenter(case):
+  """A BBOB experimenter without any random state: same input, same measurement.
+
+  Bare NumpyExperimenter, optionally under the deterministic wrappers (sign flip,
+  shift, hash-decided infeasibility). Such an object may be held by a benchmark
+  (DesignerBenchmarkStateFactory / PolicyBenchmarkStateFactory hold one experimenter)
+  and serve any number of seeded runs.
+  """
+  import numpy as np
+  from vizier._src.benchmarks.experimenters import numpy_experimenter
+  from vizier._src.benchmarks.experimenters.synthetic import bbob
+  problem = bbob.DefaultBBOBProblemStatement(case['dim'])
+  impl = functools.partial(getattr(bbob, case['fn']), seed=case['fn_seed'])
+  exptr = numpy_experimenter.NumpyExperimenter(impl, problem)
+  for w in case.get('wrappers') or []:
+    if w[0] == 'signflip':
+      from vizier._src.benchmarks.experimenters import sign_flip_experimenter
+      exptr = sign_flip_experimenter.SignFlipExperimenter(exptr)
+    elif w[0] == 'shift':
+      from vizier._src.benchmarks.experimenters import shifting_experimenter
+      exptr = shifting_experimenter.ShiftingExperimenter(
+          exptr, shift=np.asarray(w[1], dtype=float))
+    elif w[0] == 'infeasible':
+      from vizier._src.benchmarks.experimenters import infeasible_experimenter
+      exptr = infeasible_experimenter.HashingInfeasibleExperimenter(
+          exptr, infeasible_prob=w[1]['p'], seed=w[1]['seed'])
+    else:
+      raise ValueError(w)
+  return exptr
+
+
+def problem_fingerprint(problem):
+  """What a run is given as 'the problem': parameters, metrics and goals, metadata."""
+  md = sorted((str(ns), k, repr(v)[:80]) for ns, k, v in problem.metadata.all_items())
+  return {
+      'parameters': sorted((pc.name, pc.type.name, repr(pc.bounds) if pc.type.name in (
+          'DOUBLE', 'INTEGER') else repr(list(pc.feasible_values)))
+                           for pc in problem.search_space.parameters),
+      'metrics': sorted((m.name, m.goal.name) for m in problem.metric_information),
+      'metadata_items': len(md), 'metadata_head': md[:4]}
+
+
+def shared_state(case, exptr, seed):
+  """One seeded BenchmarkState on an experimenter object the caller holds."""
+  from vizier._src.benchmarks.runners import benchmark_state
+  factory = make_seeded_factory(case['designer'])
+  if case.get('policy', 'inram') == 'inram':
+    return benchmark_state.DesignerBenchmarkStateFactory(
+        experimenter=exptr, designer_factory=factory)(seed=seed)
+  # the policy class the service uses for GRID_SEARCH / QUASI_RANDOM_SEARCH / EAGLE
+  from vizier._src.algorithms.policies import designer_policy as dp
+  from vizier._src.pythia import local_policy_supporters as lps
+  problem = exptr.problem_statement()
+  supporter = lps.InRamPolicySupporter(problem)
+  policy = dp.PartiallySerializableDesignerPolicy(problem, supporter, factory, seed=seed)
+  return benchmark_state.BenchmarkState(
+      experimenter=exptr, algorithm=benchmark_state.PolicySuggester(policy, supporter))
+
+
+def _runner(case):
+  from vizier._src.benchmarks.runners import benchmark_runner
+  subs = []
+  for op, n in case['routine']:
+    subs.append({'GE': benchmark_runner.GenerateAndEvaluate,
+                 'GS': benchmark_runner.GenerateSuggestions,
+                 'FA': benchmark_runner.FillActiveTrials,
+                 'EA': benchmark_runner.EvaluateActiveTrials}[op](n))
+  return benchmark_runner.BenchmarkRunner(subs, num_repeats=case['repeats'])
+
+
+def run_bench_shared(case, seeds):
+  """One experimenter object + one runner serve len(seeds) consecutive seeded runs.
+
+  Returns ([trial sequence per run], [problem fingerprint handed to each run]).
+  """
+  exptr = deterministic_experimenter(case)
+  runner = _runner(case)
+  out, problems = [], []
+  for s in seeds:
+    problems.append(problem_fingerprint(exptr.problem_statement()))
+    state = shared_state(case, exptr, s)
+    runner.run(state)
+    out.append(_trial_sequence(state))
+  return out, problems
+
+
 def _bench_parts(case):
   """(state factory, runner): the two long-lived objects of a benchmark."""
   from vizier._src.benchmarks.experimenters import noisy_experimenter
@@ -265,6 +360,8 @@ def _trial_sequence(state):
 
 def run_bench(case):
   """Trial sequence of one seeded BenchmarkRunner execution (everything built anew)."""
+  if case.get('via') == 'shared_exptr':
+    return run_bench_shared(case, [case['seed']])[0][0]
   state_factory, runner = _bench_parts(case)
   state = state_factory(seed=case['seed'])
   runner.run(state)
@@ -285,6 +382,11 @@ def run_bench_reused(case, seeds):
 def execute_reused(case, seeds):
   import json
   return json.loads(json.dumps(run_bench_reused(case, seeds)))
+
+
+def execute_shared(case, seeds):
+  import json
+  return json.loads(json.dumps(run_bench_shared(case, seeds)))
 
 
 def execute(case):
